@@ -12,7 +12,7 @@ RULE = ("one evaluation = one history of 6-20 events over {message A->X, message
 ASSUMPTIONS = ["a reinstall is a fresh key store for the same phone number; the server double drops the old installation's one-time keys when the new identity is uploaded",
                "with automatic trust on the library resumes through the retry path: resumption is judged at quiescence, not on the first stanza",
                "histories are sampled"]
-REQUIRED = ["broadcast_shaped_messages", "other_accounts_with_autotrust", "builder_assembled_histories", "busy_restarts", "histories", "checkpoints", "identity_changes_after_pin", "refusals_incoming", "refusals_outgoing", "autotrust_replacements",
+REQUIRED = ["histories_with_empty_participant_retries", "broadcast_shaped_messages", "other_accounts_with_autotrust", "builder_assembled_histories", "busy_restarts", "histories", "checkpoints", "identity_changes_after_pin", "refusals_incoming", "refusals_outgoing", "autotrust_replacements",
             "restarts_between_pin_and_change", "autotrust:on", "autotrust:off", "group_messages"]
 TIMEOUT = {"quick": 600, "thorough": 7200}
 
@@ -30,6 +30,9 @@ def one_history(acc, seed, tag):
     W = world.World(seed=r.randrange(1 << 30), strategy=r.choice(["uniform", "app-first", "app-last", "newest"]), batch=40)
     W.server.low_keys = 12
     W.hang_seconds = 6
+    W.server.retry_participant_empty = r.random() < 0.4
+    if W.server.retry_participant_empty:
+        acc.count("histories_with_empty_participant_retries")
     W.server.notify_identity_change = r.random() < 0.5
     A, X, B = "4911" + gen.s_from(r, gen.DIGITS, 7), "4922" + gen.s_from(r, gen.DIGITS, 7), "4933" + gen.s_from(r, gen.DIGITS, 7)
     phones = [A, X] + ([B] if three else [])
